@@ -1,3 +1,4 @@
+import NxModel.Prudp.Established
 import NxProofs.Roles
 /-!
 # C01 / C08 — a retransmission is a copy: the timers only ever hold packets that were handed to the transport
@@ -11,15 +12,6 @@ are re-deliveries of elements of `net`, which is what the L2 adversary (any copy
 -/
 namespace Nx.L1
 open Nx Nx.Prudp Nx.Chan
-
-def actPacket : Action → Option Packet
-  | .resend p _ => some p
-  | .ping => none
-
-def resendsOf (c : Conn) : List Packet :=
-  match c.sched with
-  | none => []
-  | some s => s.events.filterMap (fun t => actPacket t.act)
 
 def ResFr (c c' : Conn) (new : List Packet) : Prop := ∀ q ∈ resendsOf c', q ∈ resendsOf c ∨ q ∈ new
 
